@@ -1,4 +1,4 @@
-//go:build fg_all || fg_c01 || fg_c02
+//go:build fg_all || fg_c01 || fg_c02 || fg_c05 || fg_c06
 
 package main
 
